@@ -2,6 +2,7 @@ import NixModel.Pure.Stamps
 import NixModel.Pure.StampsCreate
 import NixModel.Lemmas.C19Time
 import NixModel.Lemmas.C19Stamps
+import NixModel.Lemmas.C19TimeFormat
 
 /-!
 # C19 — time stamps: creation time is fixed, update time follows attribute changes
@@ -15,7 +16,7 @@ A state stores, per entity, the *text* of `created_at` / `updated_at`; reading i
 "For all histories" is induction over the list of operations given to `run`.
 -/
 namespace Nix.C19
-open Nix.Time Nix.Stamps Nix.Stamps.Gen Nix.Stamps.Lemmas
+open Nix.Time Nix.Stamps Nix.Stamps.Gen Nix.Stamps.Lemmas Nix.Time.Lemmas Nix.Time.Gen Nix.Civil
 
 /-! ## the string conversion -/
 
@@ -26,6 +27,75 @@ theorem C19_roundtrip (t : Int) (h : InRange t) :
   timeToStr_ok_of_inRange t h
 
 example : InRange 951868799 ∧ timeToStr 951868799 = .ok "20000229T235959".toList := by decide +kernel
+
+/-! ## the conversions follow the format strings and the epoch of the source -/
+
+/-- `time_to_str` has its canonical body, and formatting `datetime.utcfromtimestamp(t)` with the format string
+the source hands to `strftime` (generated: `strftimeFormat`) is the model's `timeToStr` — for every `t` -/
+theorem C19_time_to_str_follows_source (t : Int) :
+    timeToStrCanonical = true ∧ timeToStrWith strftimeFormat t = timeToStr t := by
+  refine ⟨by decide, ?_⟩
+  rw [timeToStr_fields]
+  unfold timeToStrWith
+  cases fieldsOf t with
+  | error e => rfl
+  | ok f => simp only [formatWith_source]
+
+/-- the date the source subtracts in `str_to_time` is the model's epoch (1970-01-01) -/
+theorem C19_epoch_is_source : dayOfCivil epoch.1 epoch.2.1 epoch.2.2 = epochShift := by decide
+
+
+set_option linter.unusedVariables false in
+/-- `str_to_time` has its canonical body, and parsing with the format string the source hands to `strptime`
+(generated: `strptimeFormat`; fixed-width fields) and subtracting the generated epoch is the model's `strToTime`
+— for every string -/
+theorem C19_str_to_time_follows_source (s : Str) :
+    strToTimeCanonical = true ∧ strToTimeWith strptimeFormat epoch s = strToTime s := by
+  refine ⟨by decide, ?_⟩
+  by_cases hlen : s.length = 15
+  · match s, hlen with
+    | [], h => exact absurd h (by simp)
+    | [a1], h => exact absurd h (by simp)
+    | [a1, a2], h => exact absurd h (by simp)
+    | [a1, a2, a3], h => exact absurd h (by simp)
+    | [a1, a2, a3, a4], h => exact absurd h (by simp)
+    | [a1, a2, a3, a4, a5], h => exact absurd h (by simp)
+    | [a1, a2, a3, a4, a5, a6], h => exact absurd h (by simp)
+    | [a1, a2, a3, a4, a5, a6, a7], h => exact absurd h (by simp)
+    | [a1, a2, a3, a4, a5, a6, a7, a8], h => exact absurd h (by simp)
+    | [a1, a2, a3, a4, a5, a6, a7, a8, a9], h => exact absurd h (by simp)
+    | [a1, a2, a3, a4, a5, a6, a7, a8, a9, a10], h => exact absurd h (by simp)
+    | [a1, a2, a3, a4, a5, a6, a7, a8, a9, a10, a11], h => exact absurd h (by simp)
+    | [a1, a2, a3, a4, a5, a6, a7, a8, a9, a10, a11, a12], h => exact absurd h (by simp)
+    | [a1, a2, a3, a4, a5, a6, a7, a8, a9, a10, a11, a12, a13], h => exact absurd h (by simp)
+    | [a1, a2, a3, a4, a5, a6, a7, a8, a9, a10, a11, a12, a13, a14], h => exact absurd h (by simp)
+    | [a1, a2, a3, a4, a5, a6, a7, a8, a9, a10, a11, a12, a13, a14, a15], _ => exact str15 a1 a2 a3 a4 a5 a6 a7 a8 a9 a10 a11 a12 a13 a14 a15
+    | a1 :: a2 :: a3 :: a4 :: a5 :: a6 :: a7 :: a8 :: a9 :: a10 :: a11 :: a12 :: a13 :: a14 :: a15 :: a16 :: rest, h => exact absurd h (by simp)
+  · rw [strToTime_length s hlen]
+    unfold strToTimeWith
+    split
+    · rfl
+    · rename_i f hf
+      have := parseWith_length strptimeFormat _ f s hf
+      exact absurd this (by simpa [strptimeFormat, pieceWidth] using hlen)
+
+
+/-- hence the round trip holds for the source's own format strings: every whole second of 1970…2100, written
+with the `strftime` format of `time_to_str` and parsed with the `strptime` format and epoch of `str_to_time`,
+comes back -/
+theorem C19_roundtrip_source_formats (t : Int) (h : InRange t) :
+    ∃ v, timeToStrWith strftimeFormat t = .ok v ∧ strToTimeWith strptimeFormat epoch v = .ok t := by
+  obtain ⟨v, h1, h2⟩ := C19_roundtrip t h
+  exact ⟨v, by rw [(C19_time_to_str_follows_source t).2]; exact h1,
+    by rw [(C19_str_to_time_follows_source v).2]; exact h2⟩
+
+example : timeToStrWith strftimeFormat 951868799 = .ok "20000229T235959".toList ∧
+    -- another format gives another text, an unknown directive is refused, a text of another layout is refused
+    timeToStrWith [.year, .lit '-', .month] 0 = .ok "1970-01".toList ∧
+    timeToStrWith [.year, .other 'y'] 0 = .error .valueError ∧
+    strToTimeWith strptimeFormat epoch "2000-02-29T23:59".toList = .error .valueError ∧
+    strToTimeWith strptimeFormat epoch "20000229t235959".toList = .ok 951868799 := by
+  decide +kernel
 
 /-! ## creation time is fixed -/
 
